@@ -35,6 +35,46 @@ def call0(obj, name):
     return ('call', ('member', obj, name, False), [])
 
 
+def subst(node, env):
+    if isinstance(node, tuple):
+        if len(node) == 2 and node[0] == 'id' and node[1] in env:
+            return env[node[1]]
+        return tuple(subst(x, env) for x in node)
+    if isinstance(node, list):
+        return [subst(x, env) for x in node]
+    return node
+
+
+def rename_loop(st, canon):
+    """a range-for with its variable renamed to `canon`"""
+    if st[0] == 'rangefor' and isinstance(st[1], str) and st[1] != canon:
+        return ('rangefor', canon, st[2], subst(st[3], {st[1]: ('id', canon)}))
+    return st
+
+
+def inline_consts(stmts):
+    """`const T v = e;` (never assigned afterwards) removed and its uses replaced by e; applies inside nested blocks too"""
+    out = []
+    env = {}
+    for st in stmts:
+        st = subst(st, env) if env else st
+        if st[0] == 'decl' and len(st[2]) == 1 and st[2][0][1] is not None and st[1].split()[0] == 'const' and st[2][0][1][0] != 'lambda':
+            env[st[2][0][0]] = st[2][0][1]
+            continue
+        out.append(st)
+    return out
+
+
+def positive_guard(body):
+    """[if (C) continue; REST]  ->  [if (!C) { REST }]   (the last form is what the original code has)"""
+    body = nonempty(body)
+    if body and body[0][0] == 'if' and not body[0][1] and body[0][4] is None and nonempty(body[0][3][1] if body[0][3][0] == 'block' else [body[0][3]]) == [('continue',)]:
+        c = body[0][2]
+        neg = c[2] if (c[0] == 'un' and c[1] == '!') else ('un', '!', c)
+        return [('if', False, neg, ('block', body[1:]), None)]
+    return body
+
+
 class Lower:
     def __init__(self):
         self.local = None     # name of the local bitset
@@ -80,6 +120,17 @@ class Lower:
                     i += 2
                     continue
                 self.bad('the search for the first available slot is no longer `for (; slot < unavailable.size(); ++slot) if (!unavailable[slot]) break;`', f)
+            # std::size_t slot = 0; while (slot < local.size() && local[slot]) ++slot;
+            if (st[0] == 'decl' and len(st[2]) == 1 and st[2][0][1] == ('num', 0) and i + 1 < len(stmts) and stmts[i + 1][0] == 'while' and self.local):
+                v = st[2][0][0]
+                w = stmts[i + 1]
+                wb = nonempty(w[2][1] if w[2][0] == 'block' else [w[2]])
+                if (w[1] == ('bin', '&&', ('bin', '<', ('id', v), call0(('id', self.local), 'size')), ('index', ('id', self.local), ('id', v)))
+                        and wb in ([('expr', ('un', '++', ('id', v)))], [('expr', ('post', '++', ('id', v)))])):
+                    self.slot = v
+                    out.append('LFirstFree')
+                    i += 2
+                    continue
             out.append(self.s(st))
             i += 1
         out = [t for t in out if t != 'LSkip']
@@ -195,6 +246,8 @@ def main():
             ('rangefor', 'pd', ('member', ('id', 'cls'), 'direct_derived', False),
              ('block', [('expr', ('call', ('id', 'assign_tree_slots'), [('un', '*', ('id', 'pd')), ('id', 'next_slot')]))])),
         ]
+        t = inline_consts(t)
+        t = [rename_loop(x, 'pd') if (x[0] == 'rangefor' and x[2] == ('member', ('id', 'cls'), 'direct_derived', False)) else x for x in t]
         if t != want_t:
             raise mc.Unsupported('assign_tree_slots changed (expected: next = base; one slot per used_by_vp entry, counting up; first_slot = 0; vtbl.resize(next); recursion over direct_derived with next)')
 
@@ -230,8 +283,16 @@ def main():
                 flat2.append(st)
         flat = flat2
         roots_ok = False
-        if len(flat) == 3 and flat[1][0] == 'rangefor' and flat[1][1] == 'cls' and flat[1][2] == ('id', 'classes'):
-            rb = nonempty(flat[1][3][1])
+        if len(flat) == 3 and flat[1][0] == 'rangefor' and isinstance(flat[1][1], str) and flat[1][2] == ('id', 'classes'):
+            flat[1] = rename_loop(flat[1], 'cls')
+            rb0 = nonempty(flat[1][3][1])
+            for stx in rb0:              # local lambdas declared inside the loop body
+                if stx[0] == 'decl' and len(stx[2]) == 1 and stx[2][0][1] is not None and stx[2][0][1][0] == 'lambda':
+                    named[stx[2][0][0]] = stx[2][0][1]
+            rb0 = [stx for stx in rb0 if not (stx[0] == 'decl' and len(stx[2]) == 1 and stx[2][0][1] is not None and stx[2][0][1][0] == 'lambda')]
+            rb = positive_guard(rb0)
+            if len(rb) == 1 and rb[0][0] == 'if':
+                rb = [('if', rb[0][1], rb[0][2], ('block', inline_consts(nonempty(rb[0][3][1]))), rb[0][4])]
             if (len(rb) == 1 and rb[0][0] == 'if' and not rb[0][1] and rb[0][4] is None
                     and rb[0][2] in (('bin', '==', call0(('member', ('id', 'cls'), 'direct_bases', False), 'size'), ('num', 0)), call0(('member', ('id', 'cls'), 'direct_bases', False), 'empty'))):
                 ib = nonempty(rb[0][3][1])
